@@ -86,6 +86,8 @@ def impl_oracle(c):
     op = c["op"]
     if op == "file":
         return J.file_oracle(c)
+    if op == "rawpos" and o.get("note"):
+        return "position", o["note"]
     if op in ("tseries", "stream") and o.get("note"):
         return ("value-and-error" if "together" in o["note"] else "decoder"), "%s: %s" % (op, o["note"])
     if op in ("tojson", "series", "shell") and o.get("note"):
@@ -172,7 +174,10 @@ def run(ck):
              "malformed bytes, invalid UTF-8, mutated documents, generated valid documents and their cuts; sequences of "
              "0-4 values read by one Decoder (for More() { Decode }) and their cuts; typed series decoded into real "
              "struct types (unknown fields, type mismatches, unknown types) and their cuts; command "
-             "lines. Each input is run through DecodeSeries / Unmarshal / ToJSON / the token chain / strtoken.Parse. "
+             "lines; (line, column) of every raw token, of EOF and of every lexing error on documents (LF and CRLF), "
+             "multi-line strings and comments, non-ASCII and invalid UTF-8, against the model's positions, and every "
+             "error position of ToJSON / DecodeSeries must be the start of a token. "
+             "Each input is run through DecodeSeries / Unmarshal / ToJSON / the token chain / strtoken.Parse. "
              "A case is trivial if its input is empty; distinct = distinct (operation, input bytes).",
         assumptions=["the io.Reader given to the lexer does not fail (inputs are byte slices / strings)",
                      "strconv.ParseFloat terminates and returns a value or an error",
